@@ -552,6 +552,9 @@ func parentMain(c *Check, tier Tier, seed uint64, nworkers int, evidencePath, re
 	if v := os.Getenv("VSIM_RUNS"); v != "" {
 		runs, _ = strconv.Atoi(v)
 	}
+	if v := os.Getenv("VSIM_MAXSEC"); v != "" {
+		maxSec, _ = strconv.Atoi(v)
+	}
 	if nworkers > runs {
 		nworkers = runs
 	}
